@@ -13,7 +13,8 @@
 (***************************************************************************)
 EXTENDS Naturals, Sequences, TLC, Json
 CONSTANTS Slot,    \* slot width in bytes (32 in production)
-          Lens,    \* candidate minimal byte lengths of a coordinate (subset of 0..Slot; 0 is the value zero)
+          Lens,    \* candidate minimal byte lengths of a coordinate (subset of 0..Slot; 0 is the value zero);
+                   \* Slot+1 stands for a full-width coordinate from the TOP of the base field (>= the scalar-field order r, < p)
           Align    \* "right" = the specification; "left" = mutant (what copy(slot, v.Bytes()) does)
 
 NC == 8
@@ -22,8 +23,9 @@ JsonPath  == <<"ar[0]", "ar[1]", "bs[0][0]", "bs[0][1]", "bs[1][0]", "bs[1][1]",
 
 Z == <<0, 0>>
 Zeros(n) == [j \in 1..n |-> Z]
-Minimal(i, k) == [j \in 1..k |-> <<i, j>>]              \* minimal big-endian byte string of coordinate i
-SlotOf(i, k)  == Zeros(Slot - k) \o Minimal(i, k)       \* its fixed-width big-endian form
+W(k) == IF k = Slot + 1 THEN Slot ELSE k                 \* byte width of a length class
+Minimal(i, k) == [j \in 1..W(k) |-> <<i, j>>]           \* minimal big-endian byte string of coordinate i
+SlotOf(i, k)  == Zeros(Slot - W(k)) \o Minimal(i, k)       \* its fixed-width big-endian form
 RECURSIVE Strip(_)
 Strip(s) == IF s # <<>> /\ Head(s) = Z THEN Strip(Tail(s)) ELSE s     \* a number has no leading zeros
 Place(num) == IF Align = "right" THEN Zeros(Slot - Len(num)) \o num
